@@ -430,12 +430,17 @@ class Rule_LT09(BaseRule):
                             fixes.append(LintFix.delete(seg))
                             all_deletes.add(seg)
 
-                    if move_after_select_clause or add_newline:
+                    # Metas (e.g. indents) have no raw and cannot be part of
+                    # an edit, so they are deleted but not re-created.
+                    moved_segments = [
+                        seg for seg in move_after_select_clause if not seg.is_meta
+                    ]
+                    if moved_segments or add_newline:
                         fixes.append(
                             LintFix.create_after(
                                 select_clause[0],
                                 ([NewlineSegment()] if add_newline else [])
-                                + list(move_after_select_clause),
+                                + moved_segments,
                             )
                         )
 
